@@ -478,6 +478,9 @@ def discharge(obls, timeout_ms=30000, seed=0, workers=None, queries=None, cross_
         for r in pool.imap_unordered(solve_one, tasks, chunksize=1):
             byname[r['name']].result = r
         if cross_cvc5:
-            for r in pool.imap_unordered(cvc5_one, tasks, chunksize=1):
+            # independent re-check on cvc5: 20 s per obligation, at most ~1500 obligations (every k-th, deterministic)
+            step = max(1, len(tasks) // 1500)
+            sample = [dict(t, timeout_ms=min(t['timeout_ms'], 20000)) for t in tasks[::step]]
+            for r in pool.imap_unordered(cvc5_one, sample, chunksize=1):
                 byname[r['name']].result['cvc5'] = r['status']
                 byname[r['name']].result['cvc5_time'] = r['time']
